@@ -214,6 +214,23 @@ class ByteChooser:
         return runnable[self._b() % len(runnable)]
 
 
+class OnePreemptionChooser:
+    """run thread `first` for k scheduling decisions, then every other thread to completion (lowest id first), then the rest:
+    the schedules with exactly one preemption, at a chosen point (what a debugger-driven demo does)"""
+
+    def __init__(self, k, first=0):
+        self.k = k
+        self.first = first
+        self.n = 0
+
+    def __call__(self, runnable, step, current):
+        self.n += 1
+        if self.n <= self.k and self.first in runnable:
+            return self.first
+        others = [t for t in runnable if t != self.first]
+        return others[0] if others else runnable[0]
+
+
 def dfs_schedules(run_once, max_runs=2000):
     """enumerate all schedules by re-execution. run_once(ReplayChooser) -> list of (n_runnable, chosen) choices made.
     yields the number of executions; stops at max_runs (returns False if truncated)."""
